@@ -43,7 +43,7 @@ vars == <<scn, ph, m>>
 DefaultEnd == [how |-> "normal", code |-> 0, msg |-> "empty", details |-> 0, trl |-> <<>>, style |-> "declared"]
 DefaultHd == [reads |-> <<>>, frames |-> <<>>, comp |-> "", status |-> 200, ct |-> "expected", clen |-> "",
               end |-> DefaultEnd, errat |-> 0, hdrs |-> <<>>, writes |-> <<>>, flush |-> FALSE,
-              exit |-> "return", fault |-> "", noread |-> FALSE, ignore |-> FALSE, noclose |-> FALSE, closerace |-> FALSE, duplex |-> FALSE, nestbig |-> FALSE]
+              exit |-> "return", fault |-> "", noread |-> FALSE, ignore |-> FALSE, noclose |-> FALSE, closerace |-> FALSE, duplex |-> FALSE, nestbig |-> FALSE, writefirst |-> FALSE]
 DefaultCl == [form |-> "grpc", method |-> "Post", codec |-> "proto", comp |-> "", accept |-> <<>>, major |-> 0,
               http |-> "", frames |-> <<>>, cut |-> "", clen |-> "", hdrs |-> <<>>, timeout |-> "", chunks |-> <<>>,
               path |-> "", ct |-> "", extra |-> <<>>, b64 |-> "", noflush |-> FALSE, rej |-> "", getdelta |-> ""]
